@@ -10,6 +10,7 @@ import ShexerModel.Model.Ttl
 import ShexerModel.Model.History
 import ShexerModel.Model.Tsv
 import ShexerModel.Model.Endpoint
+import ShexerModel.Spec.ShExEachOf
 import ShexerModel.Spec.Counts
 import ShexerModel.Spec.ShExSem
 open Shexer
@@ -248,10 +249,12 @@ def runCase (st : DState) (what id : String) : List String :=
     | "conf" =>
       let sel := if st.selLines.isEmpty then Spec.selectionOf st.cfg st.selTriples.toList else st.selLines.toList
       st.shapes.toList.flatMap fun sh =>
-        (Spec.nonConforming st.cfg sel g sh).map fun n =>
+        ((Spec.nonConforming st.cfg sel g sh).map fun n =>
           "NC\t" ++ sh.classUri ++ "\t" ++ n ++ "\t" ++
             "|".intercalate ((sh.stmts.filter fun s => !Spec.stmtOk st.cfg sel g n s).map fun s => (if s.inverse then "^" else "") ++ s.prop)
-            ++ "\t" ++ (if Spec.valuesCovered st.cfg sel g n sh then "covered" else "uncovered")
+            ++ "\t" ++ (if Spec.valuesCovered st.cfg sel g n sh then "covered" else "uncovered")) ++
+        -- ShEx proper: the values of each predicate distributed over its constraints (`Spec/ShExEachOf.lean`)
+        ((Spec.nonConformingShEx st.cfg sel g sh).map fun n => "NX\t" ++ sh.classUri ++ "\t" ++ n)
     | "confmodel" =>
       let sel := if st.selLines.isEmpty then Spec.selectionOf st.cfg st.selTriples.toList else st.selLines.toList
       (Shexer.run st.cfg g).flatMap fun sh => (Spec.nonConforming st.cfg sel g sh).map fun n => "NC\t" ++ sh.classUri ++ "\t" ++ n
